@@ -241,8 +241,10 @@ def replay_history(point, order, method, em_running, nfs):
     if any(not 1 < s < 1e5 for s in scales):
         return None
     # also the adversarial variants: repeat the first query, and revisit its scale
-    variants = [scales, [scales[0]] * len(nfs)]
-    for sv in variants:
+    nfs = list(nfs)
+    nfs3 = (nfs + [nfs[-1]] * 3)[:3]
+    variants = [(scales, nfs), ([scales[0]] * 3, nfs3), ([scales[0], scales[-1], scales[0]], nfs3)]
+    for sv, nfs in variants:
         sc = make()
         ref0 = sc.a_ref.copy()
         outs = []
